@@ -195,7 +195,8 @@ def oracle_progress(w: World, ix: Index | None = None) -> list[dict[str, Any]]:
             # Which cause was being handled? The operator acted on ITS view, which may be older than the server state:
             # take the reason reported to the handlers invoked in this window; if none was invoked, every cause
             # consistent with some view between the last processed and the current version is a candidate.
-            window_calls = [c for c in ix.calls if c['uid'] == uid and c['kind'] in CHANGING and prev_g < c['g'] <= cw.g and c.get('reason')]
+            window_calls = [c for c in ix.calls if c['uid'] == uid and c['kind'] in CHANGING and prev_g < c['g'] <= cw.g and c.get('reason')
+                            and not c.get('post_mortem')]      # (what a killed incarnation's zombie tasks still do in the simulation does not count)
             if window_calls:
                 candidates = [window_calls[-1]['reason']]
             else:
